@@ -336,5 +336,8 @@ class SBC:
                 continue
             largest_indices = max(dbscan_clusters, key=lambda x: len(x))
             cluster.indices = np.array(cluster.indices)[largest_indices].tolist()
+            # The cached distance matrix was built for the indices before the
+            # cleaning: it must not be reused for the reduced cluster.
+            cluster._distance_matrix_radii_mic = None
             clusters_cleaned.append(cluster)
         return clusters_cleaned
